@@ -122,6 +122,25 @@ def extract():
               and has(oa, "param.kind in (param.VAR_KEYWORD, param.POSITIONAL_ONLY, param.VAR_POSITIONAL)")),
        "config.py ordered_arguments: positional-only parameters are read by index only; a stored "
        "name equal to a positional-only / *args parameter is a **kwargs entry")
+  # ---- path grammar and flag directives (C18)
+  dx = parse("fiddle/_src/daglish_extensions.py")
+  pp = find_assign(dx, "_PATH_PART")
+  strs = [n.value for n in ast.walk(pp) if isinstance(n, ast.Constant) and isinstance(n.value, str)]
+  emit(defs, "path_part_alternatives", "list string", "[" + "; ".join(coq_string(s) for s in strs) + "]",
+       "daglish_extensions._PATH_PART: the string constants of the regular expression, in order")
+  fl = parse("fiddle/_src/absl_flags/flags.py")
+  cre = find_assign(fl, "_COMMAND_RE")
+  emit(defs, "command_re", "string", coq_string([n.value for n in ast.walk(cre)
+                                                  if isinstance(n, ast.Constant) and isinstance(n.value, str)][0]),
+       "absl_flags/flags.py _COMMAND_RE")
+  bcd = find_assign(fl, "_BASE_CONFIG_DIRECTIVES")
+  emit(defs, "base_config_directives", "list string",
+       "[" + "; ".join(coq_string(s) for s in sorted(ast.literal_eval(bcd))) + "]",
+       "absl_flags/flags.py _BASE_CONFIG_DIRECTIVES (sorted)")
+  pstr = src(find_def(parse("fiddle/_src/printing.py"), "_path_str"))
+  emit(defs, "path_str_strips_leading_dot", "bool",
+       g_bool(has(pstr, "path_str[1:] if path and isinstance(path[0], daglish.Attr) else path_str")),
+       "printing._path_str drops the leading '.' of an attribute path")
   return defs
 
 
